@@ -971,6 +971,11 @@ func (ft *fnTrans) loopHead(li *loopInfo, b *ssa.BasicBlock, h *Heap, entryPreds
 		}
 	}
 	_ = topBefore
+	if !li.all {
+		for _, c := range sortedKeys(li.writes) {
+			vc.assumeClosed(*h, c)
+		}
+	}
 	for _, phi := range phis {
 		n := vc.fresh(phi.Name(), vc.sorts.sortOf(phi.Type()))
 		ft.vals[phi] = n
